@@ -229,6 +229,46 @@ def run(ctx):
         if len(ctx.samples) < 4 and L >= 3:
             ctx.sample({'bs': bs, 'bidx': bidx, 'nonzero': req[-1][:120]})
 
+    # call histories on ONE MLMatrix object: apply, assign a new data tensor, apply again, convert;
+    # every answer is compared with the (stateless) model of the current data
+    nhist = 250 if ctx.tier == 'quick' else 3000
+    hist_structs = [s for s in structs if s[2].startswith('rand')][:nhist]
+    for (bs, bidx, kind) in hist_structs:
+        S = mk_struct(bs, bidx)
+        M_, N_ = S.shape
+        shape = tuple(len(p) for p in bidx)
+        sdesc = fmt_struct(bs, bidx)
+        X1 = rng.integers(-4, 5, size=shape).astype(float)
+        Mx = mlmatrix.MLMatrix(structure=S, data=X1.copy())
+        xs = [rng.integers(-3, 4, size=N_).astype(float) for _ in range(3)]
+        datas = [X1, rng.integers(-4, 5, size=shape).astype(float), rng.integers(-4, 5, size=shape).astype(float)]
+        for step in range(3):
+            Xd = datas[step]
+            if step > 0:
+                def setdata(Xd=Xd):
+                    Mx.data = Xd.copy()
+                    return None
+                try:
+                    setdata()
+                except Exception:
+                    pass
+            x = xs[step]
+
+            def f(x=x):
+                y = Mx.dot(x.copy())
+                return plist(np.asarray(y).ravel().astype(int).tolist())
+            add('matvec %s %s %s' % (sdesc, plist(Xd.ravel().astype(int).tolist()), plist(x.astype(int).tolist())),
+                f, ('matvec-history', bs, bidx, step, [d.tolist() for d in datas], [v.tolist() for v in xs]))
+
+            def g():
+                A = Mx.asmatrix('coo').tocsr()
+                A.sum_duplicates(); A.eliminate_zeros()
+                Ac = A.tocoo()
+                trip = sorted(zip(Ac.row.tolist(), Ac.col.tolist(), Ac.data.tolist()))
+                return plist(trip, lambda t: '%d,%d,%d' % (t[0], t[1], int(t[2])))
+            add('asmat %s %s' % (sdesc, plist(Xd.ravel().astype(int).tolist())), g, ('asmat-history', bs, bidx, step))
+        ctx.count('data-assignment histories')
+
     # direct ml_nonzero_nd on 2-3 level structures too (public cpdef)
     for (bs, bidx, kind) in structs[:400]:
         S = mk_struct(bs, bidx)
@@ -367,6 +407,27 @@ def run(ctx):
                     K = reduce(np.kron, A)
                     if set(zip(IJ[0].tolist(), IJ[1].tolist())) != set(zip(*[x.tolist() for x in np.nonzero(K)])):
                         found = 'ml_nonzero_nd positions differ from the support of numpy.kron'
+            if m[0] == 'matvec-history':
+                try:
+                    # replay the history on a fresh object; dense definition built position by position
+                    S = mk_struct(m[1], m[2])
+                    rowsz = [b[0] for b in m[1]]; colsz = [b[1] for b in m[1]]
+                    datas_ = [np.array(d, dtype=float) for d in m[4]]; xs_ = [np.array(v, dtype=float) for v in m[5]]
+                    Mh = mlmatrix.MLMatrix(structure=S, data=datas_[0].copy())
+                    for st in range(m[3] + 1):
+                        if st > 0:
+                            Mh.data = datas_[st].copy()
+                        y = np.asarray(Mh.dot(xs_[st].copy())).ravel()
+                    D = np.zeros((int(np.prod(rowsz)), int(np.prod(colsz))))
+                    for mu in np.ndindex(*datas_[m[3]].shape):
+                        I = int(np.ravel_multi_index([m[2][k][mu[k]][0] for k in range(len(mu))], rowsz))
+                        J = int(np.ravel_multi_index([m[2][k][mu[k]][1] for k in range(len(mu))], colsz))
+                        D[I, J] += datas_[m[3]][mu]
+                    if not np.array_equal(y, D.dot(xs_[m[3]])):
+                        found = ('after %d assignment(s) of a new data tensor to the same MLMatrix object, dot() differs from the '
+                                 'dense matrix of the current data' % m[3])
+                except Exception as ex:
+                    found = 'MLMatrix history raised %s' % type(ex).__name__
             if m[0] == 'spars':
                 try:
                     k1 = bspline.KnotVector(np.array(m[1]), m[2]); k2 = bspline.KnotVector(np.array(m[3]), m[4])
